@@ -2,6 +2,7 @@ package expressions
 
 import (
 	"bytes"
+	stderrors "errors"
 	"fmt"
 	"regexp"
 	"strconv"
@@ -128,6 +129,56 @@ func migrateLegacyTemplateAsString(template string, options *MigrateOptions) (st
 	return buf.String(), nil
 }
 
+// The legacy parser and the migration visitor recurse once per level of nesting, and once per operator of a chain like
+// 1 + 1 + 1 ... whose tree is as deep as the chain is long. Exhausting the stack is a fatal error that can't be recovered
+// from, so expressions beyond these limits are rejected before they are parsed (and left as they are, like any other
+// expression that doesn't parse). No legacy flow comes anywhere near them.
+const (
+	maxExpressionTokens  = 10000
+	maxExpressionNesting = 250
+)
+
+var errTooLong = stderrors.New("expression is too long")
+var errTooDeep = stderrors.New("expression is too deeply nested")
+
+// checks the tokens of an expression against the limits above: nesting counts open parentheses plus the unary minuses
+// that are still waiting for their operand at each level
+func checkExpressionSize(tokens []antlr.Token) error {
+	if len(tokens) > maxExpressionTokens {
+		return errTooLong
+	}
+
+	pending := []int{0} // unary minuses not yet ended by a comma or a closing parenthesis, per open parenthesis
+	total := 0
+
+	for _, token := range tokens {
+		depth := len(pending) - 1
+
+		switch token.GetTokenType() {
+		case gen.Excellent1LexerLPAREN:
+			pending = append(pending, 0)
+		case gen.Excellent1LexerRPAREN:
+			total -= pending[depth]
+			if depth > 0 {
+				pending = pending[:depth]
+			} else {
+				pending[0] = 0
+			}
+		case gen.Excellent1LexerCOMMA:
+			total -= pending[depth]
+			pending[depth] = 0
+		case gen.Excellent1LexerMINUS:
+			pending[depth]++
+			total++
+		}
+
+		if len(pending)-1+total > maxExpressionNesting {
+			return errTooDeep
+		}
+	}
+	return nil
+}
+
 // migrates an old expression into a new format expression
 func migrateExpression(env envs.Environment, expression string, options *MigrateOptions) (string, error) {
 	errListener := excellent.NewErrorListener(expression)
@@ -135,6 +186,13 @@ func migrateExpression(env envs.Environment, expression string, options *Migrate
 	input := antlr.NewInputStream(expression)
 	lexer := gen.NewExcellent1Lexer(input)
 	stream := antlr.NewCommonTokenStream(lexer, 0)
+
+	// the lexer is iterative so we can look at all the tokens before the recursive parser does
+	stream.Fill()
+	if err := checkExpressionSize(stream.GetAllTokens()); err != nil {
+		return "", err
+	}
+
 	p := gen.NewExcellent1Parser(stream)
 	p.RemoveErrorListeners()
 	p.AddErrorListener(errListener)
